@@ -74,6 +74,10 @@ Prepare == /\ phase = "prepare"
                  /\ got' = [got EXCEPT ![k] = {k}]
                  /\ IF k = N THEN phase' = "execute" /\ k' = 1 ELSE k' = k + 1 /\ UNCHANGED phase
                  /\ UNCHANGED <<nfaults, fault>>
+              \/ /\ CanFault /\ fault' = fault \cup {"prepare-dup"} /\ nfaults' = nfaults + 1     \* delivered twice: the second one is refused, or fails the generation
+                 /\ \/ /\ sess' = [sess EXCEPT ![k] = TRUE] /\ got' = [got EXCEPT ![k] = {k}]
+                       /\ IF k = N THEN phase' = "execute" /\ k' = 1 ELSE k' = k + 1 /\ UNCHANGED phase
+                    \/ /\ sess' = [sess EXCEPT ![k] = TRUE] /\ got' = [got EXCEPT ![k] = {k}] /\ Fail /\ UNCHANGED k
               \/ /\ CanFault /\ \E f \in MsgFaults :
                       /\ fault' = fault \cup {"prepare-" \o f}
                       /\ sess' = IF f = "errreply" THEN [sess EXCEPT ![k] = TRUE] ELSE sess
@@ -107,6 +111,10 @@ Execute ==
                 /\ ExecuteWith([x \in P |-> IF x = j /\ side = "req" THEN c ELSE Good], [x \in P |-> IF x = j /\ side = "rep" THEN c ELSE Good])
                 /\ fault' = fault \cup {"contribute-" \o c.name}
           /\ nfaults' = nfaults + 1
+       \/ /\ CanFault /\ \E d \in {"execute-dup", "contribute-dup"} : fault' = fault \cup {d}        \* a message delivered twice
+          /\ nfaults' = nfaults + 1
+          /\ \/ ExecuteWith([j \in P |-> Good], [j \in P |-> Good])
+             \/ Fail /\ UNCHANGED <<k, got, badlen>>
        \/ /\ CanFault /\ \E f \in MsgFaults : fault' = fault \cup {"execute-" \o f}
           /\ nfaults' = nfaults + 1 /\ Fail /\ UNCHANGED <<k, got, badlen>>
     /\ UNCHANGED <<sess, acct, crashed, committed, commitErr, byz>>
@@ -140,8 +148,11 @@ Spec == Init /\ [][Next]_vars
 AgreementOnSuccess == phase = "ok" => (\A p \in P : acct[p] /\ ~crashed[p] /\ ~badlen[p]) /\ 2 * T > N /\ T <= N /\ byz = {}
 \* C13: any prepare / execute / contribution fault of the listed kinds => error, no account anywhere, no crash
 \* (a faulty commit reply comes after the accounts have been stored: it must fail the generation, it cannot undo them)
-FaultNoAccount == /\ (fault # {}) => phase # "ok"
-                  /\ (fault \ {"commit-byzsig"} # {}) => \A p \in P : ~acct[p] /\ ~crashed[p]
+\* (a message delivered twice is not a failure: the generation may go on - then C12 applies - or end; it never crashes anybody)
+Dups == {"prepare-dup", "execute-dup", "contribute-dup"}
+FaultNoAccount == /\ (fault \ Dups # {}) => phase # "ok"
+                  /\ (fault \ (Dups \cup {"commit-byzsig"}) # {}) => \A p \in P : ~acct[p] /\ ~crashed[p]
+                  /\ \A p \in P : (fault \subseteq Dups) => ~crashed[p]
 \* a refused threshold creates nothing
 RefusedCreatesNothing == (phase = "failed" /\ ~ThresholdOK) => \A p \in P : ~acct[p] /\ ~sess[p]
 =============================================================================
